@@ -243,6 +243,9 @@ func typedExact(r *CRecord, pkg string) []problem {
 		if strings.Contains(cls, "number arrived one unit in the last place away") {
 			key = keyOf("typed/json number reader/" + cls[strings.Index(cls, "/")+1:]) // one cause (a dependency), whatever the operation
 		}
+		if strings.Contains(cls, "media type arrived without its parameters") {
+			key = keyOf("typed/wildcard body/" + cls) // one cause per direction, whatever the operation
+		}
 		out = append(out, problem{"values are exchanged exactly (typed corpus exchange)", fmt.Sprintf("call t%d.o%d %s (value seed %d, edge=%v, fault %+v fired=%v): %s", r.Task, r.Op, r.Call.TOp, r.Call.V, r.Call.Edge, r.Call.Fault, r.FaultFired, p), key})
 	}
 	if strings.HasPrefix(r.ClientErr, "client panic") {
@@ -342,6 +345,9 @@ func typedC15(r *CRecord, pkg string) []problem {
 		if s.HandlerCalls == 1 && s.MiddlewareOps != 1 {
 			add("stage order", fmt.Sprintf("delivery %d: handler ran, middleware ran %d times", i, s.MiddlewareOps))
 		}
+		if s.DecodeErrBodyForeign || s.DecodeErrBodyChanged {
+			add("the error handler is shown the rejected body of this request, and it stays what it is", fmt.Sprintf("delivery %d: not this request's: %v, changed while held: %v", i, s.DecodeErrBodyForeign, s.DecodeErrBodyChanged))
+		}
 		optionsPreflight := k == "method" && r.Call.Fault.Arg == "OPTIONS" && s.Status == 204
 		if s.MiddlewareOps == 0 && s.Explicit && !ogenStatuses[s.Status] && !optionsPreflight {
 			add("a request that does not reach the handler is answered 404/405/401/400/415", fmt.Sprintf("delivery %d: status %d without reaching the handler", i, s.Status))
@@ -389,6 +395,9 @@ func typedC19(alone, conc *CRecord, pkg string) []problem {
 	for i, s := range conc.Sides {
 		if s.Delivered && s.Panic != "" {
 			add("server does not panic", fmt.Sprintf("delivery %d: panic: %s", i, clip(s.Panic, 300)))
+		}
+		if s.DecodeErrBodyForeign || s.DecodeErrBodyChanged {
+			add("the error handler is shown the rejected body of this request, and it stays what it is", fmt.Sprintf("delivery %d: not this request's: %v, changed while held: %v", i, s.DecodeErrBodyForeign, s.DecodeErrBodyChanged))
 		}
 	}
 	if conc.Call.Fault != nil || alone == nil || conc.T == nil || alone.T == nil {
